@@ -202,6 +202,58 @@ def guard_premise(env, res, pid):
     for f in tmp.findings:
         if "/R01.a/" in f.key or "/engine/" in f.key:
             res.add("premise", f.key.split("/", 2)[2], "the guards are not what decides which opcode is emitted: " + f.msg, f.where, f.detail)
+    proto_invariant_premise(env, res, pid)
+    default_flags_premise(env, res, ["unsafe_mutations"], "a generator nobody asked unsafe mutations of must be in safe mode")
+
+
+def default_config(env):
+    """the Generator a user gets from Generator::new(version): field name -> value (interpreted, memoised)"""
+    def compute():
+        from interp import Interp, explore
+        import harness as H
+        prog, ctx = env.prog, env.ctx
+        k = prog.find("generator::Generator::new")
+        mf = H.models_factory(prog, ctx, None)
+        outs = []
+
+        def one(run):
+            I = Interp(prog, run, mf())
+            return I.call(k, [ctx.version_value(3)])
+        for run, r, pe in explore(one, max_runs=20):
+            if pe is not None:
+                raise Unanalysable("Generator::new does not return normally: %s" % (pe.info,))
+            outs.append(dict(zip(ctx.fields(ctx.gen_adt), r.fields)))
+        if len(outs) != 1:
+            raise Unanalysable("Generator::new has %d outcomes" % len(outs))
+        return outs[0]
+    return env.memo("default_config", compute)
+
+
+def default_flags_premise(env, res, flags, why):
+    """the default configuration is the one the property statements call 'default' / 'without ...': these flags are off in it"""
+    loc = None
+    try:
+        loc = env.loc(env.prog.find("generator::Generator::new"))
+        d = default_config(env)
+    except Unanalysable as e:
+        res.add("premise", "default-config/unanalysable", "Generator::new cannot be interpreted: %s" % e, loc)
+        return
+    for fl in flags:
+        res.count("premise.default")
+        v = d.get(fl, "missing")
+        if v is not False:
+            res.add("premise", "default-config/%s" % fl, "Generator::new() leaves %s = %r: %s" % (fl, v, why), loc)
+
+
+def proto_invariant_premise(env, res, pid):
+    """per-opcode leaves are analysed under proto_emitted == (P >= 2): its establishment and preservation (checked by C05 R05.c)
+    is a premise of every rule that uses those leaves"""
+    import rules_c05
+    r5 = env.memo("C05-result", lambda: rules_c05.rule_C05(env))
+    for f in r5.findings:
+        if "/R05.c/" in f.key and "proto_emitted" in f.key:
+            res.add("premise", f.key.split("/", 2)[2], "the loop invariant proto_emitted == (protocol >= 2) does not hold, so PROTO can be "
+                    "chosen inside the body: " + f.msg, f.where, f.detail)
 
 
 def memo_key_identity(lf):
@@ -294,6 +346,16 @@ def rule_C03(env):
                     "%s: %s - the simulation records the kind of a different memo entry than the one the bytes fetch" % (op, p), op_loc(env, "::emit_and_process"), sample(lf, [p]))
     res.floor("R03.a", 40, "guarded leaves of kind-constrained opcodes")
     guard_premise(env, res, "C03")
+    # GET pushes what the simulation stored: the simulated memo must get an entry exactly when the reference machine does
+    for op, lf in iter_emit_leaves(env, res, tr):
+        if lf.end is not None or spec.spec(op) is None:
+            continue
+        stores = [e for e in lf.events if e[0] == "memo_put"]
+        want = 1 if spec.spec(op)["memo"] in ("put", "memoize") else 0
+        if len(stores) != want:
+            res.add("R03.c", "process_stack_ops/%s/memo-store-count" % op,
+                    "%s stores %d entries into the simulated memo, the reference machine stores %d: later GETs push a kind the bytes do not have" % (op, len(stores), want),
+                    op_loc(env, "::process_stack_ops"), sample(lf, []))
     # the reference machine computes kinds from the BYTES: an emission that is not the one well-formed opcode the simulation
     # assumes makes it execute something else from there on (O5, shared with C01/C17)
     import rules_c04
